@@ -18,14 +18,18 @@ use noodles_csi::{
         Index,
         index::{
             ReferenceSequence,
-            reference_sequence::{Bin, bin::Chunk, index::{BinnedIndex, LinearIndex}},
+            reference_sequence::{
+                Bin,
+                bin::Chunk,
+                index::{BinnedIndex, LinearIndex},
+            },
         },
         merge_chunks, optimize_chunks,
     },
 };
 use vcore::{CaseOut, Rng, guard, rng::fnv1a};
 
-use crate::binning::{bin_count, bin_interval, biased_pos, pos, positions, vp};
+use crate::binning::{biased_pos, bin_count, bin_interval, pos, positions, vp};
 
 /// Monotone maps from the small universe 0..=U to virtual positions (raw, and "realistic": several points
 /// per BGZF block, several blocks).
@@ -74,9 +78,7 @@ fn check(list: &[(u64, u64)], min_offset: u64, pts: &[u64], via_merge: bool, o: 
                 };
                 o.violation(
                     format!("chunks:{}:uncovers-retained-range:{class}", if via_merge { "merge_chunks" } else { "optimize_chunks" }),
-                    format!(
-                        "input chunks {list:?} (virtual positions as u64), min_offset {min_offset}: retained chunk {lost:?} covers position {p}, the output {outp:?} does not"
-                    ),
+                    format!("input chunks {list:?} (virtual positions as u64), min_offset {min_offset}: retained chunk {lost:?} covers position {p}, the output {outp:?} does not"),
                 );
             }
             return (outp.len(), over);
@@ -173,9 +175,15 @@ pub fn run_random(seed: u64, lists: usize, o: &mut CaseOut) {
         for _ in 0..len {
             let s = rng.below(u + 1);
             let e = match style {
-                0 => (s + rng.below(3)).min(u),                // short, many adjacent/abutting
-                1 => (s + rng.skewed(u)).min(u),               // mixed
-                2 => if rng.chance(1, 10) { u } else { (s + 1).min(u) }, // a few long ones among short ones
+                0 => (s + rng.below(3)).min(u),  // short, many adjacent/abutting
+                1 => (s + rng.skewed(u)).min(u), // mixed
+                2 => {
+                    if rng.chance(1, 10) {
+                        u
+                    } else {
+                        (s + 1).min(u)
+                    }
+                } // a few long ones among short ones
                 _ => rng.range(s as i64, u as i64) as u64,
             };
             list.push((vmap(kind, s), vmap(kind, e)));
